@@ -60,6 +60,11 @@ template <> struct IO<int>
   static int rd(Tok &tk) { return (int)strtoll(tk.next().c_str(), nullptr, 10); }
   static void out(std::ostream &o, int v) { o << " " << v; }
 };
+template <> struct IO<int16_t>
+{
+  static int16_t rd(Tok &tk) { return (int16_t)strtoll(tk.next().c_str(), nullptr, 10); }
+  static void out(std::ostream &o, int16_t v) { o << " " << (int)v; }
+};
 template <> struct IO<uint8_t>
 {
   static uint8_t rd(Tok &tk) { return (uint8_t)strtoll(tk.next().c_str(), nullptr, 10); }
